@@ -51,6 +51,7 @@ type dimEnv struct {
 	memo     map[ssa.Value]dim
 	clashes  []dimClash
 	visiting map[ssa.Value]bool
+	depth    int
 }
 
 func (e *dimEnv) clash(pos token.Pos, format string, a ...interface{}) {
@@ -309,11 +310,70 @@ func (e *dimEnv) compute(v ssa.Value) dim {
 			}
 			return dimUnk
 		}
+		if ds := e.calleeDims(x); len(ds) == 1 {
+			return ds[0]
+		}
+		return dimUnk
+	case *ssa.Extract:
+		if call, ok := x.Tuple.(*ssa.Call); ok {
+			if ds := e.calleeDims(call); x.Index < len(ds) {
+				return ds[x.Index]
+			}
+		}
 		return dimUnk
 	case *ssa.Alloc:
 		return e.allocDim(x)
 	}
 	return dimUnk
+}
+
+// calleeDims: the dimensions of the results of a call to a carto function with
+// a body (a helper of the projection, e.g. one that computes the cone
+// constants): its parameters take the dimensions of the arguments, its fields
+// the projection's field dimensions; nil when the callee is not analysable.
+func (e *dimEnv) calleeDims(call *ssa.Call) []dim {
+	cal := staticCallee(call)
+	if cal == nil || cal.Blocks == nil || pkgOf(cal) != "carto" || e.depth >= 3 {
+		return nil
+	}
+	args := call.Call.Args
+	if len(args) != len(cal.Params) {
+		return nil
+	}
+	var argDims []dim
+	for _, a := range args {
+		if isFloat(a.Type()) {
+			argDims = append(argDims, e.of(a))
+		} else {
+			argDims = append(argDims, dimOf(0))
+		}
+	}
+	saveMemo, saveVis := e.memo, e.visiting
+	e.memo, e.visiting = map[ssa.Value]dim{}, map[ssa.Value]bool{}
+	e.depth++
+	defer func() { e.memo, e.visiting = saveMemo, saveVis; e.depth-- }()
+	for i, par := range cal.Params {
+		if isFloat(par.Type()) {
+			e.paramDim[par] = argDims[i]
+		}
+	}
+	var out []dim
+	for ri, r := range returnsOf(cal) {
+		for i, res := range r.Results {
+			d := dimOf(0)
+			if isFloat(res.Type()) {
+				d = e.of(res)
+			} else if _, isStruct := res.Type().Underlying().(*types.Struct); isStruct {
+				d = e.of(res)
+			}
+			if ri == 0 {
+				out = append(out, d)
+			} else if i < len(out) {
+				out[i] = e.same(r.Pos(), "results of "+FuncName(cal), out[i], d, res, res)
+			}
+		}
+	}
+	return out
 }
 
 // projection describes one carto projection type.
